@@ -38,12 +38,18 @@ def check_lane_functions(ctx, u, I):
             ctx.bad(R, nm + '|lanes', f, 'body is not straight-line shift/mask code; lane map cannot be derived')
             continue
         bad = expect_lanes(v, bswap_spec(N, v.w))
-        ctx.check(not bad and not I.notes, R, nm + '|lanes', f, 'output byte j = input byte %d-1-j for the low %d bits, bits above are 0' % (N // 8, N),
+        if bad and all(g_ == T for _, g_, _w in bad):
+            ctx.undecided(R, nm + '|lanes', f, 'the bit map could not be derived for %d bit(s) (an operation outside the bit-provenance domain): neither confirmed nor refuted' % len(bad))
+        else:
+            ctx.check(not bad and not I.notes, R, nm + '|lanes', f, 'output byte j = input byte %d-1-j for the low %d bits, bits above are 0' % (N // 8, N),
                   'lane map differs from byte reversal of the low %d bits: %s %s' % (N, describe_mismatch(bad), '; '.join(I.notes)))
         # involution on the low N bits
         v2 = I.eval_function(f, {p['id']: I.cast(v, dtype(p))})
         bad2 = expect_lanes(v2, [('i', 'a', i) for i in range(N)]) if v2 is not None else [(0, None, 0)]
-        ctx.check(not bad2, R, nm + '|involution', f, '%s(%s(a)) = a on the low %d bits' % (nm, nm, N), 'applying %s twice does not give back the low %d bits: %s' % (nm, N, describe_mismatch(bad2)))
+        if bad2 and all(g_ == T for _, g_, _w in bad2):
+            ctx.undecided(R, nm + '|involution', f, 'the bit map could not be derived for %d bit(s) (an operation outside the bit-provenance domain): neither confirmed nor refuted' % len(bad2))
+        else:
+            ctx.check(not bad2, R, nm + '|involution', f, '%s(%s(a)) = a on the low %d bits' % (nm, nm, N), 'applying %s twice does not give back the low %d bits: %s' % (nm, N, describe_mismatch(bad2)))
     for nm, N in (('bswap24s', 24), ('bswap48s', 48)):
         f = u.func('phosg::' + nm)[0]
         ctx.fn('phosg::' + nm)
@@ -58,11 +64,17 @@ def check_lane_functions(ctx, u, I):
         for i in range(N, v.w):
             spec[i] = spec[N - 1]
         bad = expect_lanes(v, spec)
-        ctx.check(not bad and not I.notes, R, nm + '|lanes', f, 'byte reversal of the low %d bits, bits >= %d replicate result bit %d' % (N, N, N - 1),
+        if bad and all(g_ == T for _, g_, _w in bad):
+            ctx.undecided(R, nm + '|lanes', f, 'the bit map could not be derived for %d bit(s) (an operation outside the bit-provenance domain): neither confirmed nor refuted' % len(bad))
+        else:
+            ctx.check(not bad and not I.notes, R, nm + '|lanes', f, 'byte reversal of the low %d bits, bits >= %d replicate result bit %d' % (N, N, N - 1),
                   'lane map differs from sign-extended byte reversal: %s %s' % (describe_mismatch(bad), '; '.join(I.notes)))
         v2 = I.eval_function(f, {p['id']: I.cast(v, dtype(p))})
         bad2 = expect_lanes(v2, [('i', 'a', i) for i in range(N)]) if v2 is not None else [(0, None, 0)]
-        ctx.check(not bad2, R, nm + '|involution', f, 'involution on the low %d bits' % N, 'applying %s twice does not give back the low %d bits: %s' % (nm, N, describe_mismatch(bad2)))
+        if bad2 and all(g_ == T for _, g_, _w in bad2):
+            ctx.undecided(R, nm + '|involution', f, 'the bit map could not be derived for %d bit(s) (an operation outside the bit-provenance domain): neither confirmed nor refuted' % len(bad2))
+        else:
+            ctx.check(not bad2, R, nm + '|involution', f, 'involution on the low %d bits' % N, 'applying %s twice does not give back the low %d bits: %s' % (nm, N, describe_mismatch(bad2)))
     # float forms: pointer punning around bswap32/64, no numeric conversion
     for f in u.func('phosg::bswap32f') + u.func('phosg::bswap64f'):
         nm = f.get('name')
@@ -98,7 +110,10 @@ def check_lane_functions(ctx, u, I):
                 continue
             v = I.cast(v, {8: 'unsigned char', 16: 'unsigned short', 32: 'unsigned int', 64: 'unsigned long'}[ri[0]])
             bad = expect_lanes(v, bswap_spec(pi[0], ri[0]))
-            ctx.check(not bad, R, key + '|lanes', f, 'full byte reversal at %d bits' % pi[0], 'specialisation does not reverse the %d-bit value: %s' % (pi[0], describe_mismatch(bad)))
+            if bad and all(g_ == T for _, g_, _w in bad):
+                ctx.undecided(R, key + '|lanes', f, 'the bit map could not be derived for %d bit(s) (an operation outside the bit-provenance domain): neither confirmed nor refuted' % len(bad))
+            else:
+                ctx.check(not bad, R, key + '|lanes', f, 'full byte reversal at %d bits' % pi[0], 'specialisation does not reverse the %d-bit value: %s' % (pi[0], describe_mismatch(bad)))
         else:
             rets = [x for x in walk(body_of(f)) if x.get('kind') == 'ReturnStmt']
             calls = [c for c in walk(body_of(f)) if c.get('kind') == 'CallExpr']
@@ -122,7 +137,10 @@ def check_ext(ctx, u, I):
             continue
         spec = [('i', 'a', i) if i < N else ('i', 'a', N - 1) for i in range(v.w)]
         bad = expect_lanes(v, spec)
-        ctx.check(not bad and not I.notes, R, nm + '|sign-replication', f, 'bits >= %d equal bit %d of the argument, low bits unchanged' % (N, N - 1),
+        if bad and all(g_ == T for _, g_, _w in bad):
+            ctx.undecided(R, nm + '|sign-replication', f, 'the bit map could not be derived for %d bit(s) (an operation outside the bit-provenance domain): neither confirmed nor refuted' % len(bad))
+        else:
+            ctx.check(not bad and not I.notes, R, nm + '|sign-replication', f, 'bits >= %d equal bit %d of the argument, low bits unchanged' % (N, N - 1),
                   '%s does not replicate bit %d into bits %d..%d: %s %s' % (nm, N - 1, N, v.w - 1, describe_mismatch(bad), '; '.join(I.notes)))
     fs = [f for f in u.funcs('phosg::sign_extend') if body_of(f) is not None]
     ctx.require(len(fs) >= 11, 'sign_extend instantiations missing (%d)' % len(fs))
@@ -140,7 +158,10 @@ def check_ext(ctx, u, I):
             continue
         spec = [('i', 's', i) if i < pw else ('i', 's', pw - 1) for i in range(v.w)]
         bad = expect_lanes(v, spec)
-        ctx.check(not bad and not I.notes, R, key + '|sign-replication', f, 'bits >= %d equal bit %d of the source' % (pw, pw - 1),
+        if bad and all(g_ == T for _, g_, _w in bad):
+            ctx.undecided(R, key + '|sign-replication', f, 'the bit map could not be derived for %d bit(s) (an operation outside the bit-provenance domain): neither confirmed nor refuted' % len(bad))
+        else:
+            ctx.check(not bad and not I.notes, R, key + '|sign-replication', f, 'bits >= %d equal bit %d of the source' % (pw, pw - 1),
                   'result is not the sign extension of the %d-bit source: %s %s' % (pw, describe_mismatch(bad), '; '.join(I.notes)))
 
 
@@ -271,6 +292,35 @@ def check_wrapper(ctx, u, rec):
                 return ('bin', e0['opcode'], term(e0['inner'][0]), term(e0['inner'][1]))
             if k == 'UnaryOperator' and e0.get('opcode') in ('-', '~', '+'):
                 return ('un', e0['opcode'], term(e0['inner'][0]))
+            if k in ('CXXTemporaryObjectExpr', 'CXXConstructExpr', 'CXXFunctionalCastExpr', 'CXXBindTemporaryExpr') or (k == 'DeclRefExpr' and 'std::' in (dtype(e0) or '')):
+                mf = re.match(r'^(?:const )?std::(plus|minus|multiplies|divides|modulus|bit_and|bit_or|bit_xor)<(.*)>$', (dtype(e0) or '').strip())
+                if mf:
+                    fop = {'plus': '+', 'minus': '-', 'multiplies': '*', 'divides': '/', 'modulus': '%', 'bit_and': '&', 'bit_or': '|', 'bit_xor': '^'}[mf.group(1)]
+                    return ('functor', fop, None if mf.group(2).strip() in ('void', '') else base_type(mf.group(2)))
+            if k == 'LambdaExpr':
+                return ('lambda', e0)
+            if k == 'CXXOperatorCallExpr' and call_name(e0) == 'operator()' and len(kids(e0)) >= 2:
+                ft = term(kids(e0)[1])
+                if isinstance(ft, tuple) and ft[0] == 'functor' and len(kids(e0)) == 4:
+                    ops_ = []
+                    for a_ in kids(e0)[2:]:
+                        t_ = term(a_)
+                        if ft[2] is not None and inner_type(a_) != ft[2]:
+                            t_ = ('narrow', ft[2], t_)
+                        ops_.append(t_)
+                    return ('bin', ft[1], ops_[0], ops_[1])
+                if isinstance(ft, tuple) and ft[0] == 'lambda':
+                    d_ = ref_decl(kids(e0)[0])
+                    fd_ = u.by_id.get((d_ or {}).get('id')) if d_ else None
+                    if fd_ is None or body_of(fd_) is None:
+                        # generic lambda: the instantiated call operator is a child of the closure type
+                        fd_ = next((x for x in walk(ft[1]) if x.get('kind') == 'CXXMethodDecl' and x.get('name') == 'operator()' and body_of(x) is not None and x.get('id') == (d_ or {}).get('id')), None)
+                    if fd_ is None or body_of(fd_) is None:
+                        raise SymUnrec('call of a lambda whose body is not available')
+                    av = [bind(p_, a_, term(a_)) for p_, a_ in zip(params_of(fd_), kids(e0)[2:])]
+                    c2, r2 = sym_method(fd_, state['cur'], av, depth + 1)
+                    return r2
+                raise SymUnrec('call through `%s`' % src_text(kids(e0)[1], 30))
             if k == 'CXXOperatorCallExpr' and len(kids(e0)) == 3 and term(kids(e0)[1]) == ('this',):
                 d_ = ref_decl(kids(e0)[0])
                 tgt = all_members.get((d_ or {}).get('id'))
@@ -384,6 +434,11 @@ def check_wrapper(ctx, u, rec):
                     c2 = cur_
                     if isinstance(c2, tuple) and c2[0] == 'S':
                         c2 = ('S', un_narrow(c2[1]))
+                    # narrowing an integer operand to the exposed integer type before a ring operation gives
+                    # the same stored value (arithmetic modulo 2^bits commutes with truncation)
+                    if isinstance(c2, tuple) and c2[0] == 'S' and isinstance(c2[1], tuple) and c2[1][0] == 'bin' and c2[1][1] in ('+', '-', '*', '&', '|', '^') and \
+                            mta and int_type_info(mta[0]) is not None and int_type_info(exposed) is not None:
+                        c2 = ('S', ('bin', c2[1][1]) + tuple(un_narrow(x_) for x_ in c2[1][2:]))
                     if isinstance(c2, tuple) and c2[0] == 'S' and isinstance(c2[1], tuple) and c2[1][0] == 'bin' and c2[1][1] in ('+', '*', '&', '|', '^') and c2[1][2:] == ('D', 'X0'):
                         c2 = ('S', ('bin', c2[1][1], 'X0', 'D'))
                     if c2 == ('S', ('bin', op, 'X0', 'D')) and ret_ == ('this',):
@@ -636,7 +691,7 @@ def run(ctx):
     I = Interp(u)
     check_lane_functions(ctx, u, I)
     check_ext(ctx, u, I)
-    recs = [r for r in u.records if u.qualname(r).startswith('phosg::converted_endian<')]
+    recs = [r for r in u.records if u.qualname(r).startswith('phosg::converted_endian<') and r.get('kind') == 'ClassTemplateSpecializationDecl']
     ctx.require(len(recs) == 16, 'expected 16 converted_endian specialisations (8 value types x {bswap, ident}), found %d' % len(recs))
     nops = 0
     for r in recs:
